@@ -1,8 +1,9 @@
 CONSTANTS
   MaxUI = 2
   Kinds = {"finite", "endless"}
+  ShowBumpsVersion = TRUE
   TemplateHasQ = TRUE
 SPECIFICATION Spec
-INVARIANTS TypeOK OneAlive ShownIsStarted Convergence ExitClean
+INVARIANTS TypeOK OneAlive ShownIsStarted Convergence ShowFixed ExitClean
 PROPERTIES Liveness NoSurvivor
 CHECK_DEADLOCK FALSE
